@@ -12,6 +12,17 @@ import sys
 
 pid = sys.argv[1]
 extra = ""
+# optional second argument "w9": the less travelled shared machinery
+if len(sys.argv) > 2 and sys.argv[2] == "w9":
+    extra = ("This time concentrate on the less travelled shared machinery that the property nevertheless depends on: the CaptionSet / CaptionList / "
+             "Caption / CaptionNode API in pycaption/base.py (constructors and their defaults, set_captions / get_captions, layout and style accessors, "
+             "CaptionList slicing / addition / multiplication, the node factory functions, get_text / get_text_nodes / is_empty, format_start / format_end), "
+             "the value objects and helpers of pycaption/geometry.py (inherit_from, is_relative, is_valid, __bool__, __repr__, to_xml_attribute, "
+             "from_xml_attribute, the enum conversions), pycaption/utils.py, the exception classes, the constants tables of the SCC package, and the "
+             "writer variants in pycaption/dfxp/extras.py - wherever a slip there breaks the property above for some inputs. At most one of the three changes "
+             "may sit in the reader / writer module that implements the property most directly. Avoid the over-familiar patterns: state left on a reused "
+             "reader / writer object, a memo with a coarse key, a set() making an order hash-dependent, grouping by key instead of by run, `>` turned into "
+             "`>=` on the 32-column limit, comparing times after rounding to milliseconds, zero treated as missing, is_empty() true when one language is empty. ")
 # optional second argument "w8": classic operator-level slips hidden in tidy-ups
 if len(sys.argv) > 2 and sys.argv[2] == "w8":
     extra = ("Make the changes look like tidy-ups or micro-refactorings that hide a classic operator-level slip: a changed default parameter value; iteration "
